@@ -3682,6 +3682,11 @@ where
                             // work-in-progress track has offset,
                             // so deduct that offset from this index point's
 
+                            // an index point can't come before its track's first one
+                            if offset.into() < (*track_offset).into() {
+                                return Err(CuesheetError::IndexPointsOutOfSequence);
+                            }
+
                             cuesheet::Index {
                                 number,
                                 offset: offset - *track_offset,
